@@ -163,6 +163,20 @@ inline Float operator*(const Float &a, const Float &b) {
 inline z3::expr rel(const z3::expr &x, const z3::expr &y, int op) { switch (op) { case 0: return x < y; case 1: return x <= y; case 2: return x > y; default: return x >= y; } }
 inline z3::expr rel0(const z3::expr &x, int op) { switch (op) { case 0: return x < 0; case 1: return x <= 0; case 2: return x > 0; default: return x >= 0; } }
 inline const char *opname(int op) { static const char *n[] = {"<", "<=", ">", ">="}; return n[op]; }
+// d op 0 for a term with integer variable coefficients and a possibly non-integer constant: tightened to pure integer arithmetic
+inline z3::expr rel_lin(const Lin &d, int op) {
+    Lin v = d; double k = v.k; v.k = 0;
+    if (!Engine::integral(v)) return rel0(E.to_expr(d), op);
+    z3::expr D = E.to_expr(v);                       // integer-valued
+    double nk = -k;                                  // D op nk
+    switch (op) {
+        case 0: return D <= E.ctx.int_val((int64_t)std::ceil(nk) - 1);      // D <  nk
+        case 1: return D <= E.ctx.int_val((int64_t)std::floor(nk));         // D <= nk
+        case 2: return D >= E.ctx.int_val((int64_t)std::floor(nk) + 1);     // D >  nk
+        default: return D >= E.ctx.int_val((int64_t)std::ceil(nk));         // D >= nk
+    }
+}
+inline z3::expr lt0(const Lin &d) { return rel_lin(d, 0); }
 inline z3::expr exp_term(const Float &e) {     // uninterpreted positive function with exp(t) <= 1 for t <= 0 and monotonicity handled by exp/exp rewriting
     z3::func_decl f = E.ctx.function("EXP", E.ctx.real_sort(), E.ctx.real_sort());
     z3::expr arg = E.to_real_expr(e.l);
@@ -177,9 +191,20 @@ inline bool cmp(const Float &a, const Float &b, int op) {
     if (a.inf()) return a.v < 0 ? (op == 0 || op == 1) : (op == 2 || op == 3);
     if (b.inf()) return b.v < 0 ? (op == 2 || op == 3) : (op == 0 || op == 1);
     std::string text = a.text() + " " + opname(op) + " " + b.text();
-    if (a.kind == Float::EXP && b.kind == Float::EXP) {      // ca*e^x op cb*e^y  <=>  x - y op ln(cb/ca)
-        z3::expr d = E.to_real_expr(a.l - b.l), k = E.real(std::log(b.v / a.v));
-        return E.decide(rel(d, k, op), text);
+    if (a.kind == Float::EXP && b.kind == Float::EXP) {
+        // float32 semantics of expf and of the product with beta: the value is exactly 0 when ln(value) < ln(2^-150) = -103.972
+        // (below half the smallest denormal); otherwise  ca*e^x op cb*e^y  <=>  x - y op ln(cb/ca)  (denormal precision is ignored)
+        const double UF = -103.972;
+        auto is_zero = [&](const Float &e) {
+            Lin t = e.l; t.k += std::log(e.v) - UF;           // ln(value) - UF < 0
+            return E.decide(lt0(t), "underflow(" + e.text() + ")");
+        };
+        bool za = is_zero(a), zb = is_zero(b);
+        if (za && zb) return op == 1 || op == 3;              // 0 op 0
+        if (za) return op == 0 || op == 1;                    // 0 op positive
+        if (zb) return op == 2 || op == 3;                    // positive op 0
+        Lin d = a.l - b.l; d.k -= std::log(b.v / a.v);
+        return E.decide(rel_lin(d, op), text);
     }
     if (a.kind == Float::EXP || b.kind == Float::EXP) {
         z3::expr x = a.kind == Float::EXP ? exp_term(a) : E.to_real_expr(a.lin());
@@ -188,7 +213,7 @@ inline bool cmp(const Float &a, const Float &b, int op) {
     }
     Lin d = a.lin() - b.lin();
     if (d.is_const()) { switch (op) { case 0: return d.k < 0; case 1: return d.k <= 0; case 2: return d.k > 0; default: return d.k >= 0; } }
-    return E.decide(rel0(E.to_expr(d), op), text);
+    return E.decide(rel_lin(d, op), text);
 }
 inline bool operator<(const Float &a, const Float &b) { return cmp(a, b, 0); }
 inline bool operator<=(const Float &a, const Float &b) { return cmp(a, b, 1); }
@@ -198,6 +223,7 @@ inline bool operator>=(const Float &a, const Float &b) { return cmp(a, b, 3); }
 
 namespace std {
 template <> struct numeric_limits<sym::Float> { static sym::Float lowest() { return sym::Float(-INFINITY); } };
+inline sym::Float log(const sym::Float &a) { if (a.kind != sym::Float::CONC) throw sym::Abort{3}; return sym::Float(std::log(a.v)); }
 inline sym::Float exp(const sym::Float &a) {
     if (a.kind == sym::Float::CONC) return sym::Float(std::exp(a.v));
     if (a.kind == sym::Float::EXP) throw sym::Abort{3};
